@@ -6,12 +6,39 @@ the optimized RecExpr looks for operators the executor lacks (apply / in / exist
 merge join semi/anti), join key lists of different length, residual conditions where the
 executor asserts `true`; the output types of the optimized plan must equal those of the bound
 plan; building and running the plan on small data must not panic. Optimizer panics and
-executor-build panics are violations; a wall-clock watchdog is inconclusive."""
+executor-build panics are violations.
+
+Termination is decided on CPU time, not wall clock: egg's own limits (5 s per run, 9 runs over the
+three stages) bound a returning optimisation by about 45 CPU-seconds; a statement on which the
+runner process itself has burnt CPU_BUDGET CPU-seconds without answering is a violation
+(`optimizer-does-not-return` when EXPLAIN alone exhausts the budget too, else
+`plan-execution-does-not-return`). A wall-clock watchdog firing with less CPU consumed (a starved
+runner) stays inconclusive."""
 import random
 
 from common import Report, Violation, parallel_map, h, run_sentinels, panic_site
 from gen import gen_schema, setup_statements, QueryGen
 from sqlcase import RL, DISK_LAYOUTS
+
+CPU_BUDGET = 300.0   # CPU-seconds; > 6x the sum of egg's configured time limits
+
+
+def does_not_return(setup, engine, layout, sql):
+    """classify a statement that exhausted the CPU budget: is it the optimizer (EXPLAIN alone)?"""
+    rl = RL(engine, layout)
+    try:
+        for s in setup:
+            rl.sql(s)
+        try:
+            rl.cmd({"op": "sql", "sql": "EXPLAIN " + sql, "db": "main"}, timeout=60, cpu_budget=CPU_BUDGET)
+        except Exception as e:
+            if type(e).__name__ == "RunnerCpuExhausted":
+                return "optimizer-does-not-return"
+            return "does-not-return:unclassified"
+        return "plan-execution-does-not-return"
+    finally:
+        rl.close()
+
 
 TYPES = ("INT", "BIGINT", "BOOLEAN", "VARCHAR", "DOUBLE", "DECIMAL(10,2)", "DATE")
 FEATURES = dict(full_join=True, not_in_sub=True, like=True, bool_col_cond=True, offset_no_limit=True, case_no_else=True,
@@ -54,7 +81,8 @@ def run_case(args):
             stmts.append(f"SET mock_rowcount_{t.name} = {rng.choice([0, 1, 10, 1000, 100000])}")
     engine = "disk" if rng.random() < 0.4 else "mem"
     res = dict(violations=[], evals=0, accepted=0, rejected=0, executed=0, exec_errors=0, distinct=[], inconclusive=None, tags={}, sample=None, slow=0)
-    rl = RL(engine, rng.choice(DISK_LAYOUTS[:4]))
+    layout = rng.choice(DISK_LAYOUTS[:4])
+    rl = RL(engine, layout)
     try:
         for s in stmts:
             rl.sql(s)
@@ -62,9 +90,13 @@ def run_case(args):
         for _ in range(nq):
             q = g.query()
             try:
-                r = rl.cmd({"op": "plancheck", "sql": q.sql}, timeout=60)
+                r = rl.cmd({"op": "plancheck", "sql": q.sql}, timeout=60, cpu_budget=CPU_BUDGET)
             except Exception as e:
-                if type(e).__name__ == "RunnerTimeout":
+                if type(e).__name__ == "RunnerCpuExhausted":
+                    sig = does_not_return(stmts, engine, layout, q.sql)
+                    res["violations"].append(dict(signature=sig, what=f"{q.sql[:300]}: no answer after {e.cpu:.0f} CPU-seconds of the runner process",
+                                                  sql=q.sql, setup=stmts, engine=engine))
+                elif type(e).__name__ == "RunnerTimeout":
                     res["inconclusive"] = "watchdog during plancheck"
                 else:
                     res["violations"].append(dict(signature="process-dies-while-planning", what=f"{q.sql[:200]}: {e}", sql=q.sql))
@@ -97,7 +129,13 @@ def sentinel(w):
     try:
         for s in w["setup"]:
             rl.sql(s)
-        r = rl.cmd({"op": "plancheck", "sql": w["sql"]}, timeout=60)
+        try:
+            r = rl.cmd({"op": "plancheck", "sql": w["sql"]}, timeout=60, cpu_budget=CPU_BUDGET)
+        except Exception as e:
+            if type(e).__name__ == "RunnerCpuExhausted":
+                return [(does_not_return(w["setup"], w.get("engine", "mem"), DISK_LAYOUTS[0], w["sql"]),
+                         f"{w['sql'][:300]}: no answer after {e.cpu:.0f} CPU-seconds of the runner process")]
+            raise
         return judge(r, w["sql"]) or []
     finally:
         rl.close()
@@ -132,7 +170,8 @@ def run(tier, seed):
     rep.floor("accepted statements", tot["accepted"], n * nq // 4)
     rep.floor("plans executed", tot["executed"], n * nq // 6)
     rep.assumptions = ["an execution that returns an error (type, overflow) is not a planning defect; only panics are",
-                       "termination is bounded progress: the optimizer returns within the runner's 60 s watchdog"]
+                       "termination is bounded progress on CPU time: a statement is non-terminating when the runner process burnt 300 CPU-seconds on it "
+                       "(egg's own limits allow about 45); a wall-clock watchdog with less CPU consumed is inconclusive"]
     return rep.finish()
 
 
